@@ -117,6 +117,10 @@ func ap(v ssa.Value, depth int) string {
 		return "slice(" + ap(x.X, depth+1) + ")"
 	case *ssa.Function:
 		return "func:" + FuncKey(x)
+	case *ssa.Range:
+		return "range(" + ap(x.X, depth+1) + ")"
+	case *ssa.Next:
+		return "next:" + x.Name() + "(" + ap(x.Iter, depth+1) + ")"
 	}
 	return "?" + v.Name()
 }
